@@ -18,6 +18,7 @@ pub struct Tokenizer<'a> {
     pub chars: Iter<'a, u8>,
     in_header: bool,
     in_common: bool,
+    after_data: bool,
 }
 
 impl<'a> Tokenizer<'a> {
@@ -39,6 +40,7 @@ impl<'a> Tokenizer<'a> {
             chars: iter,
             in_header: true,
             in_common: false,
+            after_data: false,
         }
     }
 
@@ -425,6 +427,9 @@ impl<'a> Iterator for Tokenizer<'a> {
                 self.chars.next();
                 if self.in_header {
                     Some(Err(ErrorCode::HeaderSeparatorError))
+                } else if !self.after_data {
+                    // A data separator must follow a data element
+                    Some(Err(ErrorCode::SyntaxError))
                 } else {
                     util::skip_ws(&mut self.chars);
                     if let Some(c) = self.chars.clone().next() {
@@ -497,6 +502,7 @@ impl<'a> Iterator for Tokenizer<'a> {
         };
         //extern crate std;
         //std::dbg!(ret);
+        self.after_data = matches!(&ret, Some(Ok(tok)) if tok.is_data());
         ret
     }
 }
